@@ -11,6 +11,7 @@ Protocol handler of family `c03` (readers).  Name tables, TOCs and directories a
   c03 refresh ix tab fs reader                       -> reader' | err
   c03 uptodate ix (name*) gen|-                      -> 1 | 0
   c03 mrun ix tab fs retries (r | event)*            -> done gen (name*) | start n | opening .. | failed ..
+  c03 xmrun ix tab fs toc0 retries (r | event)*      -> done gen (sid*) (opened-name*) | ...   (reader(reuse=fresh reader of toc0))
 -/
 namespace WM.Drv.C03
 open WM.Proto WM.FS WM.Drv.C02
@@ -71,7 +72,46 @@ def showROpen : ROpen → String
   | .done t got => s!"done {t.gen} " ++ showList (fun (p : Name × Nat) => showName p.1) got
   | .failed e => "failed " ++ showRErr e
 
+/-- steps of the recycling open that touch no storage (dictionary look-ups, finishing a segment)
+    are taken at once, so that one logged storage call of the real reader is one `r` step -/
+def settle (ix : Name) (old : Reader) (fs : FS) : Nat → RRefresh → RRefresh
+  | 0, st => st
+  | fuel + 1, st =>
+    match st with
+    | .segs .. => settle ix old fs fuel (xstep eagerExt ix old fs st)
+    | .files _ _ _ _ _ [] _ _ => settle ix old fs fuel (xstep eagerExt ix old fs st)
+    | _ => st
+
+/-- run the recycling open and remember which files the last attempt opened -/
+def xtrace (ix : Name) (old : Reader) (s : FS × RRefresh) (ms : List MStep) : (FS × RRefresh) × List Name :=
+  ms.foldl (fun (acc : (FS × RRefresh) × List Name) m =>
+    let (st, opened) := acc
+    let opened' := match m, st.2 with
+      | .r, .start _ => []
+      | .r, .files _ _ _ _ _ (f :: _) _ _ => if (st.1.dir f).isSome then opened ++ [f] else opened
+      | _, _ => opened
+    let st' := xmstep eagerExt ix old st m
+    ((st'.1, settle ix old st'.1 100000 st'.2), opened')) (s, [])
+
+def showRRefresh (opened : List Name) : RRefresh → String
+  | .start n => s!"start {n}"
+  | .segs n t _ _ rest => s!"segs {n} {t.gen} {rest.length}"
+  | .files n t _ _ _ todo _ _ => s!"files {n} {t.gen} {todo.length}"
+  | .done t r => s!"done {t.gen} " ++ showList (fun (x : SegReader) => showName x.seg.sid) r.leaves ++ " " ++
+      showList showName opened
+  | .failed e => "failed " ++ showRErr e
+
 def handle : List SExp → String
+  | [.atom "xmrun", ix, tb, fs0, t0, n, steps] =>
+    match name? ix, tab? tb with
+    | some i, some tab =>
+      match fs? tab fs0, toc? tab t0, n.nat?, steps.listOf? (mstep? tab) with
+      | some fs, some toc0, some k, some ms =>
+        let old := freshReader eagerExt fs toc0
+        let (st, opened) := xtrace i old (fs, .start k) ms
+        showRRefresh opened st.2
+      | _, _, _, _ => "bad-op"
+    | _, _ => "bad-op"
   | [.atom "mrun", ix, tb, fs0, n, steps] =>
     match name? ix, tab? tb with
     | some i, some tab =>
